@@ -215,7 +215,8 @@ impl Model {
             let expired: Vec<String> = s.leases.iter().filter(|(_, l)| l.hi < now).map(|(k, _)| k.clone()).collect();
             for k in expired {
                 let l = s.leases.remove(&k).unwrap();
-                s.requeued.insert(l.tag, "expiry");
+                // (a lease whose deadline was set by a modification: its expiry is C05's business too)
+                s.requeued.insert(l.tag, if l.cause == "modify" { "expiry-after-modify" } else { "expiry" });
                 self.expiries_crossed += 1;
             }
         }
@@ -269,8 +270,11 @@ impl Model {
                 if !blocking && certain_at_call > 0 {
                     let s = self.subs.get(sub).unwrap();
                     let why = s.requeued.values().next().copied().unwrap_or("fresh");
+                    if why == "expiry-after-modify" {
+                        self.flag("C05", "C05:late-after-modify:expired-message-unavailable", format!("Pull(return_immediately) returned nothing although the modified deadline of a delivery on {} has passed", short(sub)));
+                    }
                     let (p, sig) = match why {
-                        "expiry" => ("C04", "C04:late:expired-message-unavailable"),
+                        "expiry" | "expiry-after-modify" => ("C04", "C04:late:expired-message-unavailable"),
                         "nack" => ("C05", "C05:nack-not-available"),
                         _ => ("C01", "C01:available-message-not-returned"),
                     };
@@ -445,6 +449,10 @@ impl Model {
                             _ => ("C03", "C03:conservation"),
                         };
                         let d = format!("after {}: {} has (outstanding, backlog) = ({}, {}), model says ({}, {})", after, short(&n), st.outstanding, st.backlog, want.0, want.1);
+                        if after == "Advance" && s.requeued.values().any(|c| *c == "expiry-after-modify") {
+                            // a delivery whose deadline had been set by ModifyAckDeadline has not expired on time
+                            self.flag("C05", "C05:late-after-modify:expiry-accounting", d.clone());
+                        }
                         if after == "AckModify" {
                             // one control message carried acks and modifications: either half may be at fault
                             self.flag("C02", "C02:ack-changed-other-state", d.clone());
